@@ -1,8 +1,10 @@
 package main
 
 import (
+	"encoding/json"
 	"fmt"
 	"os"
+	"path/filepath"
 	"strings"
 	"sync"
 	"sync/atomic"
@@ -24,6 +26,7 @@ type RulesCase struct {
 	After  string `json:"after"`
 	Stored string `json:"stored"`
 	Off    int    `json:"off"`
+	TLine  int    `json:"tline"`
 	NRules int    `json:"nrules"`
 	CRLF   bool   `json:"crlf"`
 }
@@ -123,6 +126,7 @@ func checkRules(c *Ctx, roundTrip bool) error {
 	c.Cov["cases_enumerated"] = enumerated
 	c.Cov["traces_validated_against_impl"] = len(cases)
 	c.Cov["cli_executions"] = cli
+	c.Cov["recorded_target_lines_validated"] = atomic.LoadInt64(&updTraces)
 	c.Cov["exhaustive"] = keepMod == 1
 	if roundTrip {
 		c.Cov["rule"] = fmt.Sprintf("rules files of <= %d items over the 12-item vocabulary of MC_Rules x targets (6 ids x chain 0..3) x one regex of the hazard pool per target; history compare / update / compare / update / generate / edit one operand byte / compare (text and github mode) on the real binary, each step compared with the spec; non-trivial = update succeeds and the regex contains a quote, $, blank or backslash", items)
@@ -194,7 +198,23 @@ func rulesReplay(c *Ctx, name string, rc *RulesCase, roundTrip bool, cli *int64)
 			bad(fmt.Sprintf("compare must fail (%s) but exit status is 0", rc.Err), map[string]any{"stdout": firstLine(r0.Stdout)})
 		}
 	}
-	r1 := run("regex", "update", arg)
+	// Direction B: the line index the search settles on is recorded by the hook and must be the
+	// target line of the specification (RulesFile!FindTarget)
+	tf := filepath.Join(c.Scratch, name+".trace")
+	atomic.AddInt64(cli, 1)
+	r1 := c.runCLIEnv(root, "", []string{"CRS_VERIF_TRACE=" + tf}, 20*time.Second, "-d", root, "regex", "update", arg)
+	if idx, ok := updTargetFromTrace(tf); ok {
+		want := rc.TLine
+		if want < 0 {
+			want = -1
+		}
+		if idx != want && !(want == -1 && rc.Err != "") {
+			bad(fmt.Sprintf("the rule line search settled on line index %d, the specification on %d", idx, want), nil)
+		} else {
+			atomic.AddInt64(&updTraces, 1)
+		}
+	}
+	os.Remove(tf)
 	after1, _ := snapshot(root)
 	if rc.Err != "" {
 		if r1.Exit == 0 {
@@ -261,6 +281,28 @@ func rulesReplay(c *Ctx, name string, rc *RulesCase, roundTrip bool, cli *int64)
 	} else {
 		c.violation("harness", map[string]any{"why": "operand offset of the spec does not point at the regex", "case": rc})
 	}
+}
+
+var updTraces int64
+
+// updTargetFromTrace returns the index of the first upd.target event.
+func updTargetFromTrace(path string) (int, bool) {
+	b, err := os.ReadFile(path)
+	if err != nil {
+		return 0, false
+	}
+	for _, l := range strings.Split(string(b), "\n") {
+		if !strings.Contains(l, `"upd.target"`) {
+			continue
+		}
+		var ev struct {
+			Index int `json:"index"`
+		}
+		if json.Unmarshal([]byte(l), &ev) == nil {
+			return ev.Index, true
+		}
+	}
+	return 0, false
 }
 
 func firstLine(s string) string {
